@@ -149,3 +149,14 @@ pub fn errdisp_case(text: &str, ans: &str, start_field: usize) -> Option<(String
     let (start, len) = (f.get(start_field)?, f.get(start_field + 1)?);
     Some((format!("errdisp\t{}\t{}\t{}\t{}", hex(text), start, len, width_field(text)), if ul == "panic" { "panic".to_string() } else { format!("ul={ul}") }))
 }
+
+
+/// every way a JSON string can reach a `Deserialize` impl: a plain literal (the deserializer can lend a borrowed `&str`),
+/// a literal written with `\uXXXX` escapes and an owned `Value` (it cannot) — all three must give the same answer
+pub fn de_sources<T: serde::de::DeserializeOwned>(s: &str) -> [Option<T>; 3] {
+    let plain = serde_json::to_string(s).unwrap();
+    let mut escaped = String::from("\"");
+    for u in s.encode_utf16() { escaped.push_str(&format!("\\u{:04x}", u)); }
+    escaped.push('"');
+    [serde_json::from_str::<T>(&plain).ok(), serde_json::from_str::<T>(&escaped).ok(), serde_json::from_value::<T>(serde_json::Value::String(s.to_string())).ok()]
+}
